@@ -23,7 +23,7 @@ LEVEL_NOTE = "Trusts numpy datetime64 arithmetic for decoding results and icontr
 RULE = ("case = chunk of (start, stop, dt, reference, direction) combinations; thorough adds the exhaustive lattice start,stop in 0..40 s, dt in 1..7 s, "
         "reference in {none, start-5, start+3}; every combination is stepped Nsteps+2 times and probed at steps -5..Nsteps+5. Non-trivial: Nsteps >= 1; "
         "distinct by (duration, dt, direction, reference offset).")
-MANDATORY = ["forward", "reversed", "dt_not_dividing", "explicit_reference", "negative_steps_probed", "invariant_evaluations",
+MANDATORY = ["output_period_not_a_whole_number_of_steps", "output_file_time_values_checked", "forward", "reversed", "dt_not_dividing", "explicit_reference", "negative_steps_probed", "invariant_evaluations",
              "period_spellings_compared", "malformed_rejected", "resets_checked", "positioned_clock_updates"]
 ASSUMPTIONS = ["step2nctime is exercised with the documented units s, m, h only",
                "negative periods and a trailing newline are accepted by normalize_period and are not called malformed by the property"]
@@ -46,6 +46,9 @@ def gen_cases(tier: str, seed: int) -> list[dict[str, Any]]:
         for s in (0, 3, 7):
             cases.append(dict(kind="lattice", s=s, emax=9))
     cases.append(dict(kind="periods", seed=seed, n=300 if tier == "quick" else 5000))
+    # the observable "time coordinate of output files": end-to-end runs, also with an output period that is not a whole number of steps
+    for i in range(8 if tier == "quick" else 400):
+        cases.append(dict(kind="outfile", seed=seed, idx=i))
     return cases
 
 
@@ -252,8 +255,52 @@ def _periods(case, V, sit, cnt, keys):
         V.append(C.viol(f"malformed period {bad!r} accepted as {got!r}"))
 
 
+def _outfile(case, wd, V, sit, cnt, keys):
+    """The CF time value written for a record is the offset of the model time at which it was written from the reference time."""
+    from vmon.hooks import Hooks  # noqa: PLC0415
+    from vmon.scenario import read_outputs, run_scenario, tadd  # noqa: PLC0415
+
+    rng = C.rng_for(case["seed"], 13, case["idx"], 5)
+    dt = int(rng.choice([60, 120, 600]))
+    ns = int(rng.integers(5, 14))
+    rev = bool(case["idx"] % 4 == 3)
+    mult = [1.5, 2.0, 2.5, 1.0, 3.0, 1.25][case["idx"] % 6]  # output period in steps, whole or not
+    per_s = int(round(mult * dt))
+    spell = [per_s, [per_s, "s"], f"PT{per_s // 60}M{per_s % 60}S" if per_s % 60 else [per_s // 60, "m"]][case["idx"] % 3]
+    ref = [None, "2020-01-01T00:00:00", "2020-03-05T12:00:00"][case["idx"] % 3]
+    start = C.T0
+    sg = -1 if rev else 1
+    lo, hi = sorted([start, str(tadd(start, sg * (ns + 1) * dt))])
+    w = C.still_world(lo, hi, imax=10, jmax=9, N=2)
+    run = dict(start=start, stop=str(tadd(start, sg * ns * dt)), dt=dt, reversed=rev, reference=ref, advection="EF",
+               release=dict(columns=["release_time", "X", "Y", "Z"], rows=[[start, 4.5, 4.5, 1.0]], header=True), output=dict(period=spell))
+    written: list[np.datetime64] = []
+    with Hooks() as hk:
+        from ladim.out_netcdf import Output  # noqa: PLC0415
+
+        hk.wrap(Output, "write", lambda self, state: written.append(np.datetime64(self.timer.time, "s")), None)
+        res, conf, _w = run_scenario(dict(world=w, run=run), wd)
+    desc = dict(kind="outfile", dt=dt, steps=ns, output_period=spell, reversed=rev, reference=ref)
+    sit["output_period_not_a_whole_number_of_steps"] = int(mult != int(mult))
+    if not res.ok:
+        V.append(C.viol(f"run did not complete: {res.exc}", tb=res.tb[-1000:], **desc))
+        return
+    times = [r.time for f in read_outputs(res.outputs) for r in f.records]
+    sit["output_file_time_values_checked"] = len(times)
+    if [str(t) for t in times] != [str(t) for t in written]:
+        V.append(C.viol(f"time coordinate of the output file reads {[str(t) for t in times][:6]}, the records were written at model times {[str(t) for t in written][:6]}", **desc))
+    keys.add(("outfile", dt, ns, str(spell), rev, ref))
+
+
 def run_case(case: dict[str, Any], wd: Path) -> dict[str, Any]:
     tk = _install()
+    if case["kind"] == "outfile":
+        V0: list = []
+        sit0: dict[str, int] = {}
+        cnt0: dict[str, int] = {}
+        keys0: set = set()
+        _outfile(case, wd, V0, sit0, cnt0, keys0)
+        return C.result(V0[:3], sit0, cnt0, nontrivial=True, key=str(case), sample=dict(case=case))
     V: list = []
     sit: dict[str, int] = {}
     cnt: dict[str, int] = {}
